@@ -117,6 +117,7 @@ def run_frame(c):
     fr = make_frame(c, rng)
     out = dict(chi2_df=int(fr.chi2_df), dtype=str(fr.data.dtype), init_stats=stats_of(fr), init_ref=[float(x).hex() for x in ref_sigma_clip_stats(fr.data)],
                init_data=hexl(fr.data), steps=[], fails=[])
+    kept = []
     for k, op in enumerate(c["ops"]):
         rng.log = []
         before = fr.data.copy()
@@ -131,6 +132,8 @@ def run_frame(c):
         rec = dict(err=None, log=rng.log, stats=stats_of(fr), data=hexl(fr.data), ref=[float(x).hex() for x in ref_sigma_clip_stats(fr.data)],
                    ret=None if ret is None else hexl(ret), ret_shape=None if ret is None else list(np.shape(ret)))
         out["steps"].append(rec)
+        if op[0] in ("noise", "obs") and ret is not None:
+            kept.append((k, ret, np.array(ret, copy=True)))
         if op[0] in ("noise", "obs"):
             # the identity, evaluated directly: data after == data before + returned array (rounded to the data's own type)
             if ret is None or np.shape(ret) != before.shape:
@@ -145,6 +148,11 @@ def run_frame(c):
                 mn = min(fh(x) for x in a["mins"])
             if mn is not None and ret is not None and np.any(ret < mn):
                 out["fails"].append(["floor", "step %d: truncated noise has a value %r below its floor %r" % (k, float(np.min(ret)), mn)])
+    # what was returned stays what was added: a later operation on the frame must not reach into an array handed out earlier
+    for k, ret, snap in kept:
+        if np.shares_memory(ret, fr.data) or not np.array_equal(ret, snap):
+            out["fails"].append(["return-aliases-data", "the noise array returned at step %d %s" % (k, "is the frame's own data buffer" if np.shares_memory(ret, fr.data) else "was changed by a later operation on the frame")])
+            break
     return out
 
 
